@@ -5,7 +5,9 @@ P="$1"; PATCH="$2"; TIER="${3:-quick}"
 cd /repo || exit 2
 if [ -n "$(git status --porcelain)" ]; then echo "/repo not clean" >&2; exit 2; fi
 git apply "$PATCH" || { echo "patch does not apply" >&2; exit 2; }
+cp /verif/evidence/$P.json /tmp/seedtest.ev 2>/dev/null
 cd /verif && ./check "$P" --tier "$TIER" > /tmp/seedtest.out 2>&1; RC=$?
+cp /tmp/seedtest.ev /verif/evidence/$P.json 2>/dev/null
 git -C /repo checkout -- . ; git -C /repo clean -fdq
 tail -4 /tmp/seedtest.out
 exit $RC
